@@ -245,7 +245,15 @@ class Replayer:
         cls = obs["pcls"] if bk == "polars" else obs["scls"]
         if bk != "polars" and side.marker:
             cls = None      # order knowledge does not survive a materialised subquery (sound: compare as bag)
-        res = CMP.compare_rows(CMP.spec_rows(obs), CMP.frame_rows(df_cmp), obs["tys"], cls)
+        exp_rows = CMP.spec_rows(obs)
+        if CMP.has_undef(exp_rows):
+            if "rid" in obs["names"]:
+                res = CMP.compare_aligned(exp_rows, CMP.frame_rows(df_cmp), obs["tys"], obs["names"].index("rid"))
+            else:
+                self.stats["skipped_undefined"] += 1
+                return df
+        else:
+            res = CMP.compare_rows(exp_rows, CMP.frame_rows(df_cmp), obs["tys"], cls)
         if res is not None:
             self.fail(node, beh, k, bk, res[0], res[1], expected=obs["rows"][:8], actual=CMP.frame_rows(df_cmp)[:8])
         return df
@@ -547,6 +555,23 @@ class Replayer:
             return
         cls = None if ss.marker else obs["scls"]
         tys = obs["tys"] if list(dp.columns) == obs["names"] else None
+        exp_rows = CMP.spec_rows(obs)
+        if CMP.has_undef(exp_rows):
+            # compare the two back ends only on the cells the specification defines
+            if "rid" not in obs["names"] or list(dp.columns) != obs["names"]:
+                return
+            key = obs["names"].index("rid")
+            pm = {r[key]: r for r in CMP.frame_rows(dp)}
+            masked = []
+            for er in exp_rows:
+                pr = pm.get(er[key])
+                if pr is None:
+                    return
+                masked.append([CMP.UNDEF if ev is CMP.UNDEF else pv for ev, pv in zip(er, pr)])
+            res = CMP.compare_aligned(masked, CMP.frame_rows(ds), tys, key)
+            if res is not None:
+                self.fail(node, beh, k, "both", "cross-" + res[0], res[1])
+            return
         res = CMP.compare_rows(CMP.frame_rows(dp), CMP.frame_rows(ds), tys, cls if cls is not None and len(cls) == dp.height else None)
         if res is not None:
             self.fail(node, beh, k, "both", "cross-" + res[0], res[1], expected=CMP.frame_rows(dp)[:8], actual=CMP.frame_rows(ds)[:8])
